@@ -387,3 +387,67 @@ for _kind, _ns, _na in (("eql", 2, 0), ("leq", 2, 0), ("geq", 2, 0), ("leq", 2, 
         shards=4 if _ns * (_na + 1) > 2 else 1,
         weight=3 if _ns * (_na + 1) > 2 else 1,
     )(_expr(_kind, _ns, _na))
+
+
+# ------------------------------------------------------------------------------------------------
+# the entry point of the parser: pyparsing by its assumed contract A8, the translation by its own contract above
+# ------------------------------------------------------------------------------------------------
+@contract(
+    "serializer.polyhedral_termlist_from_string",
+    ["C09", "C14", "C13"],
+    [SER + ":polyhedral_termlist_from_string"],
+    "S",
+    bound="every shape of the parser's answer: a parse error, one expression, one token of another kind, two tokens, none",
+    assumes=["A8: expression.parse_string(text, parse_all=True) raises a ParseBaseException or returns the tokens", "contract of _expression_to_polyhedral_terms (above)"],
+    covers=["syntax_error", "translated", "ValueError"],
+)
+def c_termlist_from_string(h):
+    from pyvc.core import ClassV, NativeFn, PyRaise
+    from pyvc.ext import PRes, default_ext
+
+    mod = h.I.load_module(SER)
+    data = h.I.load_module(DATA)
+    pbe = default_ext()["pyparsing"].attrs["ParseBaseException"]
+    parse_exc_cls = ClassV("ParseException", [pbe], mod)
+    expr_cls = data.ns["PolyhedralSyntaxIneqExpression"]
+    shape = ["error", "expression", "other", "two", "none"][h.ctx.choose(5, "parser_answer")]
+    rec = {}
+    e_obj = Obj(expr_cls, h.ctx)
+    pe = Obj(parse_exc_cls, h.ctx)
+    result = PList([], h.ctx)
+
+    def parse_string(I, args, kwargs):
+        rec["text"], rec["parse_all"] = args[0], kwargs.get("parse_all", args[1] if len(args) > 1 else False)
+        if shape == "error":
+            raise PyRaise(pe)
+        toks = {"expression": [e_obj], "other": [3.0], "two": [e_obj, Obj(expr_cls, h.ctx)], "none": []}[shape]
+        return PRes(list(toks), h.ctx)
+
+    class Expression:
+        def ext_getattr(self, I, name):
+            if name in ("parse_string", "parseString"):
+                return NativeFn("expression.parse_string", parse_string)
+            raise Unsupported("expression.%s" % name)
+
+    def translate(I, args, kwargs):
+        rec["translate"] = args
+        return result
+
+    h.I.overrides[(SER, "expression")] = Expression()
+    h.I.stubs[SER + ":_expression_to_polyhedral_terms"] = translate
+    out = h.call(h.I.get_func(SER + ":polyhedral_termlist_from_string"), ["TEXT"])
+    h.check("C09.from_string.whole_string_is_parsed", rec.get("text") == "TEXT" and rec.get("parse_all") is True, "parse_string(%r, parse_all=%r)" % (rec.get("text"), rec.get("parse_all")))
+    if shape == "error":
+        h.cover("syntax_error")
+        ok = out.kind == "raise" and isinstance(out.exc, Obj) and out.exc.cls is h.I.load_module("pacti.utils.errors").ns["PolyhedralSyntaxException"]
+        h.check("C14.from_string.parse_error_becomes_syntax_exception", ok, "outcome %s %s" % (out.kind, out.exc_name))
+    elif shape == "expression":
+        h.cover("translated")
+        h.check("C09.from_string.expression_is_translated", out.kind == "return" and out.value is result, "outcome %s %r" % (out.kind, out.value if out.kind == "return" else out.exc_name))
+        a = rec.get("translate")
+        h.check("C09.from_string.translation_of_the_parsed_expression", a is not None and a[0] == "TEXT" and a[1] is e_obj, "translated %r" % (a,))
+    else:
+        h.cover("ValueError")
+        h.check("C14.from_string.other_token_shapes_rejected_with_valueerror", out.kind == "raise" and out.exc_is(h.I, ValueError), "outcome %s %s" % (out.kind, out.exc_name if out.kind == "raise" else out.value))
+        h.check("C09.from_string.nothing_translated", "translate" not in rec, "translated %r" % (rec.get("translate"),))
+    h.frame_ok(out, "C13.frame")
